@@ -1131,7 +1131,17 @@ func (c *Ctx) c14Switch(ro *c14roles, switchT *types.Named, read *ssa.Function, 
 			_, fld, _, ok := flow.FieldOf(st.Addr)
 			return ok && fld == copierFld && flow.IsNilConst(st.Val)
 		}
-		if p := flow.PathAvoiding(read, g, isUnlock, clears); p != nil {
+		// cleared just before the go, in the same critical section, is as good as just after it
+		clearedBefore := false
+		flow.Instrs(read, func(in ssa.Instruction) {
+			if clears(in) && flow.Dominates(in, g) && mustHeldAt(read, in, mu, true) &&
+				flow.PathAvoiding(read, in, isUnlock, func(x ssa.Instruction) bool { return x == ssa.Instruction(g) }) == nil {
+				clearedBefore = true
+			}
+		})
+		if clearedBefore {
+			r.Ok("R5", key, c.pos(g), "go copier under "+mu+", field cleared in the same critical section just before")
+		} else if p := flow.PathAvoiding(read, g, isUnlock, clears); p != nil {
 			r.Fail("R5", key, c.pos(g), "after starting the copier the func field is not cleared in the same critical section: the next Read starts a second copier (duplicated / reordered inbound data)", c.witness(p)...)
 		} else {
 			r.Ok("R5", key, c.pos(g), "go copier under "+mu+", field cleared before unlock")
